@@ -788,3 +788,222 @@ def check_C12(chk, binp):
             chk.violation('correspondence broken (san) on %s: code %s model %s' % (cases[i], impl[i], model[i]), {'kind': 'correspondence', 'case': cases[i]}, found_input=False)
         for i in bl[:2]:
             chk.violation('correspondence broken (lan) on %s' % lc[i], {'kind': 'correspondence', 'case': lc[i]}, found_input=False)
+
+# ------------------------------------------------------------------ search properties
+def raw_coords(raw):
+    r = int(raw)
+    return (r >> 4) & 63, (r >> 10) & 63, (r >> 20) & 15
+
+def parse_search(out):
+    """'P1:33 B227:268762962 ... #138 t123 || ...' -> list of dicts per search of the chain"""
+    res = []
+    if out is None:
+        return None
+    for part in out.split(' || '):
+        d = {'best': [], 'progress': [], 'nodes': None, 'raw': part}
+        for tok in part.split(' '):
+            if tok.startswith('B'):
+                ev, line = tok[1:].split(':', 1)
+                d['best'].append((int(ev), [x for x in line.split(',') if x]))
+            elif tok.startswith('P'):
+                d['progress'].append(tok)
+            elif tok.startswith('#'):
+                d['nodes'] = int(tok[1:])
+        res.append(d)
+    return res
+
+def search_positions(chk, tag, n):
+    rnd = random.Random(chk.seed + 11)
+    pos = G.positions(chk.seed, chk.tier, tag, n_playouts=24 if chk.tier == 'quick' else 200, n_small=200 if chk.tier == 'quick' else 3000)
+    term = run_cases(MODEL, ['specterm\t' + f for f in pos], tag + '-term')
+    live = [f for f, t in zip(pos, term) if t == 'none']
+    dead = [f for f, t in zip(pos, term) if t in ('mate', 'stale')]
+    small = [f for f in live if sum(c.isalpha() for c in f.split(' ')[0]) <= 7]
+    big = [f for f in live if f not in set(small)]
+    sel = rnd.sample(small, min(len(small), n * 2 // 3)) + rnd.sample(big, min(len(big), n // 3))
+    return sel, dead
+
+def rights_pairs(rnd, n):
+    """positions that differ only in castling rights / en-passant state (same placement)"""
+    base = ['r3k2r/8/8/8/8/8/8/R3K2R w KQkq - 0 1', '4k3/8/8/8/8/8/8/4K2R w K - 0 1', 'r3k3/8/8/8/8/8/8/4K3 b q - 0 1',
+            'r3k2r/pppq1ppp/2n2n2/3pp3/3PP3/2N2N2/PPPQ1PPP/R3K2R w KQkq - 4 8', '4k3/8/8/3pP3/8/8/8/4K3 w - d6 0 2', '4k3/8/8/8/3Pp3/8/8/4K3 b - d3 0 1']
+    out = []
+    for b in base:
+        p = b.split(' ')
+        variants = [b]
+        if p[2] != '-':
+            for r in rights_subsets(p[2]):
+                variants.append(' '.join([p[0], p[1], r] + p[3:]))
+        if p[3] != '-':
+            variants.append(' '.join(p[:3] + ['-'] + p[4:]))
+        for _ in range(n):
+            out.append('|'.join(rnd.sample(variants, min(len(variants), rnd.randrange(2, 5)))))
+    return out
+
+def run_search_cases(chk, binp, tag, cases, with_model=True):
+    impl = run_cases(binp, cases, tag + '-impl')
+    model = run_cases(MODEL, cases, tag + '-model') if with_model else None
+    return impl, model
+
+def check_lines_legal(chk, tag, cases, impl, need_report=True):
+    """every reported line legal under the rules; at least one report per search of a live position"""
+    q = []; idx = []
+    for i, (c, out) in enumerate(zip(cases, impl)):
+        fens = c.split('\t')[-1].split('|')
+        ps = parse_search(out)
+        if ps is None or len(ps) != len(fens):
+            continue
+        for f, d in zip(fens, ps):
+            for ev, line in d['best']:
+                q.append('specline\t%s\t%s' % (f, ','.join(line))); idx.append((i, f, ev, line))
+    res = run_cases(MODEL, q, tag + '-lines')
+    bad = [(idx[j], r) for j, r in enumerate(res) if r != 'legal']
+    return bad, len(q)
+
+def check_C19(chk, binp):
+    quick = chk.tier == 'quick'
+    rnd = random.Random(chk.seed)
+    sel, dead = search_positions(chk, 'C19', 160 if quick else 1500)
+    cases = []
+    for f in sel + dead[:10]:
+        d = rnd.choice([1, 2, 2, 3] if quick else [1, 2, 3, 3, 4])
+        nt, nb = rnd.choice([(2, 64), (4, 256), (1, 16)])
+        cases.append('search\t%d\t%d\t%d\t-\t1\t%d\t%d\t-\t%s' % (rnd.randrange(1 << 30), rnd.randrange(1 << 50), d, nt, nb, f))
+    impl, model = run_search_cases(chk, binp, 'C19', cases)
+    impl2 = run_cases(binp, cases, 'C19-impl2', shards=5)       # a different process and partition
+    impl3 = run_cases(binp, list(reversed(cases)), 'C19-impl3', shards=3)[::-1]
+    b12 = stream(chk, 'events + node counts + per-node trace checksum, run 1 vs run 2 (other process)', cases, impl, impl2, 'the same code, second process')
+    b13 = stream(chk, 'events + node counts + per-node trace checksum, run 1 vs run 3 (other process, other order)', cases, impl, impl3, 'the same code, third process')
+    bm = stream(chk, 'events + node counts + per-node trace checksum', cases, impl, model, 'extracted search model driven only by (position, seed-derived streams, depth)')
+    for c in cases:
+        chk.distinct.add(c.split('\t', 2)[2])
+    chk.rule = 'single-worker searches (synchronous hook entry, fresh small artifact) of live and terminal positions at depth 1..3 (quick) / 1..4; each case run in three separate processes and in the extracted model, whose only inputs are the position, the depth and the ChaCha8 streams derived from the seed'
+    chk.samples += [{'case': cases[0], 'code': impl[0]}]
+    for i in (b12 + b13)[:3]:
+        chk.violation('same position, seed and depth gave different reports: %s -> %s / %s / %s' % (cases[i], impl[i], impl2[i], impl3[i]), {'kind': 'input', 'case': cases[i], 'run1': impl[i], 'run2': impl2[i], 'run3': impl3[i]}, found_input=True)
+    if not b12 and not b13:
+        for i in bm[:3]:
+            chk.violation('correspondence broken (search model) on %s: code %s model %s' % (cases[i], (impl[i] or '')[:300], (model[i] or '')[:300]), {'kind': 'correspondence', 'case': cases[i], 'code': impl[i], 'model': model[i]}, found_input=False)
+
+def check_C03(chk, binp):
+    quick = chk.tier == 'quick'
+    rnd = random.Random(chk.seed)
+    sel, dead = search_positions(chk, 'C03', 150 if quick else 1500)
+    cases = []
+    for f in sel:
+        d = rnd.choice([1, 2, 2, 3])
+        nt, nb = rnd.choice([(1, 1), (2, 16), (4, 64), (1, 4)])
+        chain = f if rnd.random() < 0.5 else '|'.join([f] + rnd.sample(sel, 2))
+        cases.append('search\t%d\t%d\t%d\t-\t1\t%d\t%d\t-\t%s' % (rnd.randrange(1 << 30), rnd.randrange(1 << 50), d, nt, nb, chain))
+    for ch in rights_pairs(rnd, 3 if quick else 30):
+        cases.append('search\t%d\t%d\t%d\t-\t1\t%d\t%d\t-\t%s' % (rnd.randrange(1 << 30), rnd.randrange(1 << 50), rnd.choice([2, 3]), 2, 64, ch))
+    impl, model = run_search_cases(chk, binp, 'C03', cases)
+    bm = stream(chk, 'single worker: events + node trace, chains of searches reusing the artifact (incl. pairs differing only in rights/ep)', cases, impl, model, 'extracted search model')
+    # multi-worker: real threads, schedule not controlled; lines checked against the rules
+    mw = []
+    for f in rnd.sample(sel, min(len(sel), 40 if quick else 600)):
+        chain = f if rnd.random() < 0.5 else '|'.join([f] + rnd.sample(sel, 2))
+        mw.append('search\t%d\t%d\t%d\t-\t%d\t%d\t%d\t-\t%s' % (rnd.randrange(1 << 30), rnd.randrange(1 << 50), rnd.choice([2, 3]), rnd.choice([2, 3, 4, 8]), 2, rnd.choice([4, 64]), chain))
+    for ch in rights_pairs(rnd, 2 if quick else 20):
+        mw.append('search\t%d\t%d\t3\t-\t%d\t2\t64\t-\t%s' % (rnd.randrange(1 << 30), rnd.randrange(1 << 50), rnd.choice([2, 4]), ch))
+    mimpl = run_cases(binp, mw, 'C03-mw-impl', shards=4)
+    allc = cases + mw; alli = impl + mimpl
+    bad, nlines = check_lines_legal(chk, 'C03', allc, alli)
+    chk.streams.append({'name': 'every reported line legal move by move (1..8 workers)', 'against': 'extracted rules specification', 'cases': nlines, 'disagreements': len(bad)})
+    noreport = []
+    for c, out in zip(allc, alli):
+        ps = parse_search(out)
+        fens = c.split('\t')[-1].split('|')
+        if ps is None or out == 'panic' or len(ps) != len(fens):
+            noreport.append((c, out)); continue
+        for f, d in zip(fens, ps):
+            if not d['best'] or any(len(l) == 0 for _, l in d['best']):
+                noreport.append((c, out)); break
+    chk.streams.append({'name': 'at least one non-empty report per search of a position with a legal move', 'against': 'the property', 'cases': len(allc), 'disagreements': len(noreport)})
+    chk.evaluations += len(mw)
+    for c in allc:
+        chk.distinct.add(c.split('\t', 2)[2])
+    chk.extra['workers_used'] = hist([c.split('\t')[5] for c in allc])
+    chk.rule = 'searches (depth 1..3) of live positions through the synchronous hook entry: fresh and reused artifacts (chains of 1..4 searches, including position pairs differing only in castling rights / en-passant state), tables 1x1 .. 4x64 to force displacement, 1 worker (exact model equality) and 2..8 real worker threads (lines checked against the rules)'
+    chk.samples += [{'case': cases[0], 'code': impl[0]}, {'case': mw[0], 'code': mimpl[0]}]
+    for (i, f, ev, line), r in bad[:3]:
+        chk.violation('reported line is not legal (%s) in %s: line %s (case %s)' % (r, f, line, allc[i]), {'kind': 'history', 'case': allc[i], 'fen': f, 'line': line, 'verdict': r}, found_input=True)
+    for c, out in noreport[:3]:
+        chk.violation('no (non-empty) best line reported: %s -> %s' % (c, (out or '')[:200]), {'kind': 'input', 'case': c, 'code': out}, found_input=True)
+    if not bad and not noreport:
+        for i in bm[:3]:
+            chk.violation('correspondence broken (search model) on %s' % cases[i], {'kind': 'correspondence', 'case': cases[i], 'code': impl[i], 'model': model[i]}, found_input=False)
+
+def check_C04(chk, binp):
+    quick = chk.tier == 'quick'
+    rnd = random.Random(chk.seed)
+    sel, dead = search_positions(chk, 'C04', 100 if quick else 1000)
+    F8 = '8/8/8/1P6/8/3p4/p1pP4/k1K5 w - - 0 1'
+    cases = []
+    for f in sel + dead + [F8]:
+        for cancel in rnd.sample(['-', '0', '1', '2', '7', '30', '200', '2000'], 3):
+            d = rnd.choice(['1', '2', '3'])
+            chain = f if rnd.random() < 0.6 else f + '|' + rnd.choice(sel)       # the returned artifact seeds the next search
+            cases.append('search\t%d\t%d\t%s\t%s\t1\t2\t64\t-\t%s' % (rnd.randrange(1 << 30), rnd.randrange(1 << 50), d, cancel, chain))
+    # unlimited depth with cancellation by node count (finite trees included)
+    for f in [F8] + rnd.sample(sel, 10):
+        cases.append('search\t%d\t%d\t-\t%d\t1\t2\t64\t-\t%s' % (rnd.randrange(1 << 30), rnd.randrange(1 << 50), rnd.choice([5, 50, 500]), f))
+    impl, model = run_search_cases(chk, binp, 'C04', cases)
+    bm = stream(chk, 'single worker: events, node counts after cancellation at node k, terminal roots, chains', cases, impl, model, 'extracted search model (cancellation by node count)')
+    panics = [(c, o) for c, o in zip(cases, impl) if o is None or o == 'panic']
+    chk.streams.append({'name': 'no panic / no hang for any position, cancellation instant, terminal root', 'against': 'the property (catch_unwind + process exit)', 'cases': len(cases), 'disagreements': len(panics)})
+    # terminal roots report no move
+    termbad = []
+    deadset = set(dead)
+    for c, o in zip(cases, impl):
+        fens = c.split('\t')[-1].split('|')
+        ps = parse_search(o)
+        if ps is None or len(ps) != len(fens):
+            continue
+        for f, d in zip(fens, ps):
+            if f in deadset and d['best']:
+                termbad.append((c, o))
+    chk.streams.append({'name': 'checkmate/stalemate roots end normally and report no move', 'against': 'the property', 'cases': sum(1 for c in cases if c.split('\t')[-1].split('|')[0] in deadset), 'disagreements': len(termbad)})
+    # stop bound in node entries: after the flag is set at node k, the run ends within POLL_PERIOD further nodes of the current iteration
+    latebad = []
+    for c, o in zip(cases, impl):
+        a = c.split('\t')
+        if a[4] == '-' or o is None or '||' in o:
+            continue
+        ps = parse_search(o)
+        if ps and ps[0]['nodes'] is not None and ps[0]['nodes'] > int(a[4]) + 10000 + 1:
+            latebad.append((c, o))
+    chk.streams.append({'name': 'after cancellation at node k at most POLL_PERIOD further node entries', 'against': 'C04_stop_bound', 'cases': len(cases), 'disagreements': len(latebad)})
+    # process level: real threads, Stop at seeded instants; join latency (generous ceiling only to catch hangs)
+    st = []
+    for f in [F8, G.START] + rnd.sample(sel, 6 if quick else 60) + dead[:4]:
+        for mode in rnd.sample(['plain', 'drop', 'twice', 'depth3-nostop', 'depth3', 'drop-twice'], 2 if quick else 4):
+            st.append('stoptest\t%d\t%d\t%s\t%s' % (rnd.randrange(1 << 30), rnd.choice([0, 1, 20, 150, 400]), mode, f))
+    sres = run_cases(binp, st, 'C04-stop', shards=4, timeout=900)
+    lat = []
+    sbad = []
+    for c, r in zip(st, sres):
+        if r is None or not r.startswith('joined'):
+            sbad.append((c, r))
+        else:
+            ms = int(r.split(' ')[1]); lat.append(ms)
+            if ms > 5000 and 'nostop' not in c:
+                sbad.append((c, r))
+    chk.streams.append({'name': 'Stop via the public entry point at seeded instants (receiver kept/dropped, repeated, after completion): thread joins', 'against': 'the property (5 s ceiling, only to catch hangs)', 'cases': len(st), 'disagreements': len(sbad)})
+    chk.evaluations += len(st)
+    chk.extra['join_latency_ms'] = {'max': max(lat) if lat else None, 'median': sorted(lat)[len(lat) // 2] if lat else None}
+    for c in cases + st:
+        chk.distinct.add(c)
+    chk.rule = 'searches of live and terminal positions with cancellation at node 0,1,2,7,30,200,2000 or none, depth 1..3 or unlimited, followed by a second search on the returned artifact; process-level Stop at seeded delays'
+    chk.samples += [{'case': cases[0], 'code': impl[0]}, {'case': st[0], 'code': sres[0]}]
+    for c, o in panics[:2]:
+        chk.violation('search crashed or did not return: %s -> %s' % (c, o), {'kind': 'input', 'case': c, 'code': o}, found_input=True)
+    for c, o in termbad[:2]:
+        chk.violation('terminal root reported a move: %s -> %s' % (c, o), {'kind': 'input', 'case': c, 'code': o}, found_input=True)
+    for c, o in latebad[:2]:
+        chk.violation('Stop not obeyed within the poll period (node count): %s -> %s' % (c, o), {'kind': 'input', 'case': c, 'code': o}, found_input=True)
+    for c, r in sbad[:2]:
+        chk.violation('Stop through the public entry point: %s -> %s' % (c, r), {'kind': 'schedule', 'case': c, 'code': r}, found_input=True)
+    if not (panics or termbad or latebad or sbad):
+        for i in bm[:3]:
+            chk.violation('correspondence broken (search model, cancellation) on %s: code %s model %s' % (cases[i], (impl[i] or '')[:200], (model[i] or '')[:200]), {'kind': 'correspondence', 'case': cases[i], 'code': impl[i], 'model': model[i]}, found_input=False)
